@@ -82,12 +82,19 @@ def logical_holds(name, idx, b):
     raise ValueError(name)
 
 
+def scheme_of(case):
+    # descending string labels (keys are written in an order that differs from their stored, sorted order, so the
+    # model's own enumeration differs from first-appearance-in-sorted-keys) for PCSO and for PCBO with log_trick=False
+    return "rstr" if (case["spin"] or not case["log_trick"]) else "str"
+
+
 def build(case, extra):
     """Build H with the constraints; returns (H, feas table, f table, lam, warned_unsat) or Raised."""
     qv = paths.import_qubovert()
     spin = case["spin"]
-    labels = gen.labels_for("str", N)
-    f = gen.relabel(rp.unjdict(case["objective"]), "str", N)
+    SCH = scheme_of(case)
+    labels = gen.labels_for(SCH, N)
+    f = gen.relabel(rp.unjdict(case["objective"]), SCH, N)
     ftab = rp.tt(f, labels, spin)
     lam = float(ftab.max() - ftab.min()) + extra
     Model = qv.PCSO if spin else qv.PCBO
@@ -100,7 +107,7 @@ def build(case, extra):
         kind, i = m[j]
         if kind == "cmp":
             rel, D, _lt = (cs.SPIN_MENU if spin else cs.MENU)[i]
-            P = gen.relabel(D, "str", N)
+            P = gen.relabel(D, SCH, N)
             r, w = cs.add(H, rel, dict(P), lam, case["log_trick"], None)
             feas &= cs.holds(rel, rp.tt(P, labels, spin))
         else:
@@ -117,7 +124,7 @@ def build(case, extra):
 def check(case, st):
     qv = paths.import_qubovert()
     spin = case["spin"]
-    labels = gen.labels_for("str", N)
+    labels = gen.labels_for(scheme_of(case), N)
     for extra in (1, 0.5):
         built = build(case, extra)
 
@@ -293,7 +300,8 @@ def run(ctx):
                   "objectives": {"PCBO": len(objectives(ctx.tier, False)), "PCSO": len(objectives(ctx.tier, True))},
                   "menu": {"PCBO": "14 comparison (C02 menu) + %s" % [l[0] for l in LOGICAL], "PCSO": "12 comparison (C03 menu)"},
                   "history_length": {"PCBO": "1-2" if ctx.quick else "1-2 for all objectives, 3 for one-term objectives", "PCSO": "1 (2 for three one-term objectives)" if ctx.quick else "1-2"},
-                  "weights": "(max f - min f) + 1 and + 0.5", "log_trick": [True, False]}
+                  "weights": "(max f - min f) + 1 and + 0.5", "log_trick": [True, False],
+                  "labels": "ascending strings for PCBO with log_trick=True, descending strings (keys written in unsorted order) for PCBO with log_trick=False and all PCSO cases"}
     ctx.rule = "case = (model kind, objective, ordered constraint history, log_trick), two weights each; non-trivial = some assignment is infeasible"
     ctx.exhaustive = True
     explore_cases(ctx, gen_cases(ctx.tier), check, label="C08")
